@@ -35,6 +35,10 @@ def _cases(tier):
             yield {"mode": "list", "h": h}
         for h in itertools.combinations_with_replacement(atoms + [A.ABSENT], 4):
             yield {"mode": "samples", "h": list(h)}
+        for h in itertools.combinations_with_replacement(vals, 4):
+            yield {"mode": "samples", "h": list(h)}
+        for h in itertools.combinations_with_replacement(atoms, 5):
+            yield {"mode": "list", "h": list(h)}
     # graph inputs: types after merge_models (second pass for real)
     for spec in A.graph_specs(3 if tier == "quick" else 4):
         for merge in ("default", "exact"):
@@ -120,8 +124,7 @@ def execute(case):
 
 def run(tier, seed):
     r = core.Run(PROP, tier, seed)
-    r.rule = ("E1: all value sequences/multisets (<=2 over 46 values + <=3 over atoms quick; <=3 over values + 4 over "
-              "atoms thorough) fed through generate() as samples of one field and as one list value, plus graph inputs "
+    r.rule = ("E1: all value sequences/multisets (<=2 over 46 values + <=3 over atoms quick; <=3 over values, all multisets of 4 over 46 values and of 5 over atoms thorough) fed through generate() as samples of one field and as one list value, plus graph inputs "
               "through merge_models; non-trivial = distinct canonical result containing a union or optional")
     r.bounds = {"tier": tier, "values": len(A.VALUE_NAMES), "atoms": len(A.ATOM_NAMES)}
     r.assumptions = ["operands are restricted to types the real _detect_type produces for JSON values (inferred types)",
